@@ -118,6 +118,8 @@ pub fn c14_q_keyboard() {
         kb.set_ctrl_handling(mode);
     }
     assert!(kb.get_ctrl_handling() == mode, "C14: Keyboard::get_ctrl_handling does not return what was set");
+    // "the current modifier state" is what the Keyboard itself reports
+    let m = kb.get_modifiers().clone();
     let k = any_key();
     let s = any_state();
     let n0 = calls.get();
